@@ -179,13 +179,16 @@ struct Setup {
 }
 
 const OLD: u64 = 1_000_000_000;
+const IN_MODE: u32 = 0o666;
 
 fn prepare(s: &Setup) {
     let _ = std::fs::remove_dir_all(&s.dir);
     std::fs::create_dir_all(&s.dir).unwrap();
     let p = s.dir.join("in.png");
     std::fs::write(&p, &s.input).unwrap();
-    std::fs::set_permissions(&p, std::fs::Permissions::from_mode(0o640)).unwrap();
+    // (group- and world-writable: bits a umask of 022 takes away from a file that is merely CREATED with this mode - the
+    // destination has to be given them explicitly)
+    std::fs::set_permissions(&p, std::fs::Permissions::from_mode(IN_MODE)).unwrap();
     let f = std::fs::File::options().write(true).open(&p).unwrap();
     f.set_modified(std::time::UNIX_EPOCH + std::time::Duration::from_secs(OLD)).unwrap();
 }
@@ -242,6 +245,11 @@ fn strace(s: &Setup, inject: Option<&str>) -> (Option<i32>, String, Vec<u8>) {
         c.arg("-e").arg(i);
     }
     c.arg(bin_path()).args(&s.args).current_dir(&s.dir).env("RUST_LOG", "off");
+    // the traced process runs under the usual umask, whatever this one was started with
+    unsafe {
+        use std::os::unix::process::CommandExt;
+        c.pre_exec(|| { extern "C" { fn umask(mask: u32) -> u32; } umask(0o022); Ok(()) });
+    }
     let out = c.output().expect("strace not runnable");
     (out.status.code(), std::fs::read_to_string(&log).unwrap_or_default(), out.stdout)
 }
@@ -375,13 +383,13 @@ pub fn corr(ctx: &mut Ctx) {
                 }
                 if preserve && matches!(*route, "out" | "dir") && *kind != "invalid" {
                     match &after.dest {
-                        Some((_, mt, mode)) if *mt == OLD && *mode == 0o640 => st.count("preserve_ok"),
+                        Some((_, mt, mode)) if *mt == OLD && *mode == IN_MODE => st.count("preserve_ok"),
                         other => st.fail("preserve", format!("destination attributes {:?} differ from the input's ({})", other.as_ref().map(|x| (x.1, x.2)), cfg), replay.clone()),
                     }
                 }
                 if preserve && *route == "inplace" && *kind == "improvable" {
                     match &after.input {
-                        Some((_, mt, mode)) if *mt == OLD && *mode == 0o640 => st.count("preserve_ok"),
+                        Some((_, mt, mode)) if *mt == OLD && *mode == IN_MODE => st.count("preserve_ok"),
                         other => st.fail("preserve", format!("in-place attributes {:?} not preserved ({})", other.as_ref().map(|x| (x.1, x.2)), cfg), replay.clone()),
                     }
                 }
